@@ -2,12 +2,14 @@
 // cache directories.
 //
 //	sc <u|c> <d|f> <hexname>                          shouldClean(name, isDir) of a plain / compressed cache
-//	ex <u|c> <high> <low> <found> <marks> <late>      compressed-style exact run: every two candidates are at least a
+//	ex <u|c> <high> <low> <found> <marks> <late> <win> compressed-style exact run: every two candidates are at least a
 //	                                                  grace period apart, so the eviction order is determined
-//	sp <high> <low> <found> <marks> <late> <evicted> <total>
+//	sp <high> <low> <found> <marks> <late> <win> <evicted> <total>
 //	                                                  the OUTCOME of a real pass over a layout checked against the order-free
 //	                                                  specification; late = paths marked (by a real Retrieve) while the cleaner
-//	                                                  was suspended between its walk and its eviction loop
+//	                                                  was suspended between its walk and its eviction loop, or while an earlier
+//	                                                  entry was being evicted; win = paths retrieved between the loop's test of
+//	                                                  that very entry and its rename
 //	fl <u|c> <k>                                      a one-file Store suspended before its k-th filesystem operation
 //	                                                  while this process's cleaner runs with water marks 0/0
 //	lay <u|c> <high> <low> <exact 0|1> <item>;<item>…  (replay / corpus / generator only) a cache LAYOUT: it is built, one
@@ -285,6 +287,16 @@ func runLayout(r *lib.Run, layLine string, compress bool, items []item, hi, lo u
 	if len(lateS) > 0 {
 		lateStr = strings.Join(lateS, ",")
 	}
+	var winS []string
+	for _, e := range before {
+		if window[e.rel] {
+			winS = append(winS, hx(e.rel))
+		}
+	}
+	winStr := "-"
+	if len(winS) > 0 {
+		winStr = strings.Join(winS, ",")
+	}
 	after := recognisedEntries(dir, compress)
 	fpAfter := fingerprint(dir)
 	left := map[string]bool{}
@@ -309,10 +321,10 @@ func runLayout(r *lib.Run, layLine string, compress bool, items []item, hi, lo u
 	}
 	var op, impl string
 	if exact {
-		op = fmt.Sprintf("ex %s %d %d %s %s %s", mode, hi, lo, showFound(before), markS, lateStr)
+		op = fmt.Sprintf("ex %s %d %d %s %s %s %s", mode, hi, lo, showFound(before), markS, lateStr, winStr)
 		impl = fmt.Sprintf("evicted=%s total=%d", evS, total)
 	} else {
-		op = fmt.Sprintf("sp %d %d %s %s %s %s %d", hi, lo, showFound(before), markS, lateStr, evS, total)
+		op = fmt.Sprintf("sp %d %d %s %s %s %s %s %d", hi, lo, showFound(before), markS, lateStr, winStr, evS, total)
 	}
 
 	// ---- direct oracle on the real outcome
@@ -330,7 +342,7 @@ func runLayout(r *lib.Run, layLine string, compress bool, items []item, hi, lo u
 			unprotBefore += e.size
 			if evSet[e.rel] {
 				evSize += e.size
-			} else if !late[e.rel] {
+			} else if !late[e.rel] && !window[e.rel] {
 				unprotAfter += e.size
 			}
 		}
@@ -519,7 +531,7 @@ func runOp(r *lib.Run, op string) {
 		}
 		derived, impl := runLayout(r, op, f[1] == "c", items, hi, lo, f[4] == "1")
 		r.Emit(derived, impl, true)
-	case (f[0] == "sp" && len(f) == 8) || (f[0] == "ex" && len(f) == 7):
+	case (f[0] == "sp" && len(f) == 9) || (f[0] == "ex" && len(f) == 8):
 		// a bare outcome line (e.g. from a correspondence replay): the layout is gone, so the data is judged by the
 		// independent statement of the rules below
 		r.Emit(op, judgeData(f), true)
@@ -626,6 +638,9 @@ func judgeData(f []string) string {
 		found, ok1 := parseFound(f[4])
 		marks, ok2 := parseMarks(f[5])
 		late := parseLate(f[6])
+		for p := range parseLate(f[7]) {
+			late[p] = true // marked before its rename: protected
+		}
 		if e1 != nil || e2 != nil || !ok1 || !ok2 || (f[1] != "u" && f[1] != "c") {
 			return "bad-op"
 		}
@@ -665,13 +680,16 @@ func judgeData(f []string) string {
 	found, ok1 := parseFound(f[3])
 	marks, ok2 := parseMarks(f[4])
 	late := parseLate(f[5])
-	tot, e3 := strconv.ParseUint(f[7], 10, 64)
+	for p := range parseLate(f[6]) {
+		late[p] = true // marked before its rename: protected
+	}
+	tot, e3 := strconv.ParseUint(f[8], 10, 64)
 	if e1 != nil || e2 != nil || e3 != nil || !ok1 || !ok2 {
 		return "bad-op"
 	}
 	var evs []string
-	if f[6] != "-" {
-		evs = strings.Split(f[6], ",")
+	if f[7] != "-" {
+		evs = strings.Split(f[7], ",")
 	}
 	var walked, evSize, candN uint64
 	isCand := map[string]uint64{}
